@@ -9,7 +9,6 @@ fn fixed_random_state() -> std::hash::RandomState {
     unsafe { std::mem::transmute::<(u64, u64), std::hash::RandomState>((1, 2)) }
 }
 
-#[cfg(not(kani_small))]
 fn sym_decimal() -> Decimal {
     // sign classes with fixed magnitudes: the code under test only looks at signs (is_sign_positive, set_sign_positive, neg)
     let neg: bool = kani::any();
@@ -18,10 +17,11 @@ fn sym_decimal() -> Decimal {
     Decimal::new(if neg { -m } else { m }, 2)
 }
 
-fn posting_value(p: &syntax::plain::Posting) -> Option<Decimal> {
+/// (mantissa, scale) of the posting's literal amount: compared field-wise, Decimal's own comparison loops over rescaling
+fn posting_value(p: &syntax::plain::Posting) -> Option<(i128, u32)> {
     match p.amount.as_ref() {
         Some(pa) => match &pa.amount {
-            syntax::expr::ValueExpr::Amount(a) => Some(a.value.value),
+            syntax::expr::ValueExpr::Amount(a) => Some((a.value.value.mantissa(), a.value.value.scale())),
             _ => None,
         },
         None => None,
@@ -36,7 +36,6 @@ fn posting_value(p: &syntax::plain::Posting) -> Option<Decimal> {
 #[kani::stub(std::hash::RandomState::new, fixed_random_state)]
 fn to_double_entry_signs() {
     let value = sym_decimal();
-    kani::assume(!value.is_zero());
     let mut txn = Txn::new(
         NaiveDate::from_ymd_opt(2024, 1, 2).unwrap(),
         "p",
@@ -45,7 +44,6 @@ fn to_double_entry_signs() {
     let has_transfer: bool = kani::any();
     let tvalue = sym_decimal();
     if has_transfer {
-        kani::assume(!tvalue.is_zero());
         txn.transferred_amount(OwnedAmount { value: tvalue, commodity: "Y".to_string() });
     }
     let has_balance: bool = kani::any();
@@ -66,17 +64,17 @@ fn to_double_entry_signs() {
     let dest = &t.posts[dest_idx];
     assert!(acct.account.as_undecorated() == "A");
     // the configured account moves by the row's amount
-    assert!(posting_value(acct) == Some(value));
+    assert!(posting_value(acct) == Some((value.mantissa(), value.scale())));
     // running balance becomes a balance assertion on the account posting only
     assert!(acct.balance.is_some() == has_balance);
     assert!(dest.balance.is_none());
     // counter posting: opposite amount, or the secondary amount with the opposite sign
-    let dv = posting_value(dest).unwrap();
+    let (dm, ds) = posting_value(dest).unwrap();
     if has_transfer {
-        assert!(dv.abs() == tvalue.abs());
-        assert!(dv.is_sign_positive() != value.is_sign_positive());
+        assert!(dm.abs() == tvalue.mantissa().abs() && ds == tvalue.scale());
+        assert!((dm > 0) != (value.mantissa() > 0));
     } else {
-        assert!(dv == -value);
+        assert!(dm == -value.mantissa() && ds == value.scale());
     }
     // unknown counter account by direction, pending unless an account was assigned
     if !has_dest {
